@@ -62,10 +62,50 @@ func (e *Eng) assumeInvs(ls *LoopSpec, st *State, pos token.Pos) {
 	}
 }
 
+// iterGhost runs the "iter" ghost statements of a loop at the start of an iteration.
+func (e *Eng) iterGhost(ls *LoopSpec, st *State, pos token.Pos) {
+	if ls == nil || len(ls.Iter) == 0 {
+		return
+	}
+	c := e.invCtx(st, pos)
+	e.hookDepth++
+	e.ghostBlock(ls.Iter, c, &Hook{Callee: "iter", When: "iter"}, &ast.CallExpr{Lparen: pos})
+	e.hookDepth--
+}
+
+// iterGhostNames lists the ghost variables assigned by iter statements.
+func iterGhostNames(ls *LoopSpec, a *assignedSet) {
+	if ls == nil {
+		return
+	}
+	for _, s := range ls.Iter {
+		ast.Inspect(s, func(n ast.Node) bool {
+			if as, ok := n.(*ast.AssignStmt); ok {
+				for _, l := range as.Lhs {
+					switch x := l.(type) {
+					case *ast.Ident:
+						a.ghosts[x.Name] = true
+					case *ast.IndexExpr:
+						if id, ok := x.X.(*ast.Ident); ok {
+							a.ghosts[id.Name] = true
+						}
+					}
+				}
+			}
+			return true
+		})
+	}
+}
+
 // loopHavoc forgets everything the loop may assign.
 func (e *Eng) loopHavoc(s ast.Node, st *State) {
+	e.loopHavocLS(s, st, nil)
+}
+
+func (e *Eng) loopHavocLS(s ast.Node, st *State, ls *LoopSpec) {
 	a := e.assignedIn(s)
 	e.addHookGhosts(s, a)
+	iterGhostNames(ls, a)
 	e.havocSet(a, st)
 }
 
@@ -82,7 +122,7 @@ func (e *Eng) forLoop(s *ast.ForStmt, st *State) []Out {
 	defer e.enterLoop(st)()
 	e.checkInvs(ls, no, "init", st, pos)
 	h := st.clone()
-	e.loopHavoc(s, h)
+	e.loopHavocLS(s, h, ls)
 	e.assumeInvs(ls, h, pos)
 	var outs []Out
 	b := h.clone()
@@ -95,6 +135,7 @@ func (e *Eng) forLoop(s *ast.ForStmt, st *State) []Out {
 		b.assume(cb.T)
 	}
 	b.defers = nil
+	e.iterGhost(ls, b, pos)
 	for _, o := range e.block(s.Body.List, b) {
 		switch {
 		case o.kind == Normal, o.kind == Continue && o.label == "":
@@ -177,7 +218,7 @@ func (e *Eng) rangeLoop(s *ast.RangeStmt, st *State) []Out {
 	e.checkInvs(ls, no, "init", ent, pos)
 	// arbitrary iteration
 	h := st.clone()
-	e.loopHavoc(s.Body, h)
+	e.loopHavocLS(s.Body, h, ls)
 	i := e.newSym("i", e.idxSort())
 	h.assume(e.le(e.idxLit(0), i))
 	h.assume(e.le(i, n))
@@ -200,6 +241,7 @@ func (e *Eng) rangeLoop(s *ast.RangeStmt, st *State) []Out {
 	if valObj != nil && elemAt != nil {
 		b.vars[valObj] = e.copyVal(b, elemAt(b, i))
 	}
+	e.iterGhost(ls, b, pos)
 	for _, o := range e.block(s.Body.List, b) {
 		switch {
 		case o.kind == Normal, o.kind == Continue && o.label == "":
@@ -231,7 +273,7 @@ func (e *Eng) opaqueRange(s *ast.RangeStmt, st *State, ls *LoopSpec, no int, key
 	defer e.enterLoop(st)()
 	e.checkInvs(ls, no, "init", st, pos)
 	h := st.clone()
-	e.loopHavoc(s.Body, h)
+	e.loopHavocLS(s.Body, h, ls)
 	if keyObj != nil {
 		h.vars[keyObj] = e.symFor(keyObj.Name(), keyObj.Type(), h)
 	}
@@ -259,6 +301,7 @@ func (e *Eng) opaqueRange(s *ast.RangeStmt, st *State, ls *LoopSpec, no int, key
 			}
 		}
 	}
+	e.iterGhost(ls, b, pos)
 	for _, o := range e.block(s.Body.List, b) {
 		switch {
 		case o.kind == Normal, o.kind == Continue && o.label == "":
